@@ -143,6 +143,20 @@ func runC12(c *core.Ctx) {
 			w.Log[b].Ents = append(w.Log[b].Ents, gen.Ent{Name: n2, Val: gen.N(fmt.Sprint(q2))})
 			c.Count("histories_with_digit_suffixed_twins", 1)
 		}
+		if i%97 == 13 && len(w.Log) >= 2 {
+			// a history with more different foods than any table a report might pre-size (1300 names), the early ones
+			// logged again in later blocks
+			w.Log[0].Ents = nil
+			for k := 0; k < 1300; k++ {
+				w.Log[0].Ents = append(w.Log[0].Ents, gen.Ent{Name: fmt.Sprintf("item/%04d", k), Val: gen.Half(2)})
+			}
+			for di := 1; di < len(w.Log); di++ {
+				for k := 0; k < 6; k++ {
+					w.Log[di].Ents = append(w.Log[di].Ents, gen.Ent{Name: fmt.Sprintf("item/%04d", (k*211+di*7)%1300), Val: gen.Half(3 + k)})
+				}
+			}
+			c.Count("histories_with_1300_different_foods", 1)
+		}
 		X := w.Basics[r.Intn(len(w.Basics))]
 		P := "a"
 		if m := alnumRun.FindString(w.Recipes[0]); m != "" {
